@@ -2,8 +2,8 @@
    The derived executors of Exec.v (the same definitions that are compared with the Go code) are run over the Redis
    reference primitives of ONE database (Redis.dprim; `dhandle`): `run x c args d` is the final database and the
    result.  Every statement is for ALL databases d and ALL argument values; `c` is any authorized connection state. *)
-From Coq Require Import String.
-From GR Require Import Base BaseFacts Resp Handler Exec Conn Redis SugarFacts SugarMore.
+From Coq Require Import String QArith.
+From GR Require Import Base BaseFacts Resp Handler Exec Conn Redis Grammar SugarFacts SugarMore.
 Open Scope Z_scope.
 
 Section C12.
@@ -87,6 +87,18 @@ Section C12.
     end.
   Proof. use hmget_spec. Qed.
 
+  (* ZREVRANGEBYSCORE key max min [WITHSCORES] [LIMIT offset count], options in any order and letter case: the members whose
+     score lies between min and max (each bound optionally exclusive), in DESCENDING order, then offset / count applied to
+     that descending order; every member followed by its own score with WITHSCORES *)
+  Theorem C12_zrevrangebyscore : forall (d : db) k (mx mn : rstok) (ws : list zr_word) z,
+    rstok_ok mx = true -> rstok_ok mn = true -> forallb zr_word_ok ws = true -> aget d k = Some (VZSet z) ->
+    let o := zr_opt_of ws in
+    run (X x_ZREVRANGEBYSCORE) c (map bulk ([k; rstok_txt mx; rstok_txt mn] ++ flat_map print_zr_word ws)) d =
+    (d, x_ok (RArr (flat_map (zfmt (zr_withscores o))
+                      (limit (zr_offset o) (zr_count o)
+                         (rev (filter (fun e => in_score_range (ft_val (rs_tok mn)) (ft_val (rs_tok mx)) (rs_ex mn) (rs_ex mx) (snd e)) z)))))).
+  Proof. use zrevrangebyscore_spec. Qed.
+
   (* MGET: one reply element per requested key, in request order, nil for a missing key *)
   Theorem C12_mget : forall d keys, keys <> [] -> all_strings_or_missing d keys ->
     run (X x_MGET) c (map bulk keys) d =
@@ -166,6 +178,7 @@ Print Assumptions C12_incrby.
 Print Assumptions C12_decrby.
 Print Assumptions C12_msetnx.
 Print Assumptions C12_mget.
+Print Assumptions C12_zrevrangebyscore.
 Print Assumptions C12_mset.
 Print Assumptions C12_hmset.
 Print Assumptions C12_hmget.
@@ -191,4 +204,16 @@ Example C12_ex_counter :
   snd (run (x_INCR db dhandle) c [bulk (B"n")] [(B"n", VStr (B"9223372036854775807"))]) = x_fw /\
   snd (run (x_INCR db dhandle) c [bulk (B"n")] [(B"n", VStr (B"007"))]) = x_fw /\
   run (x_INCR db dhandle) c [bulk (B"n")] [(B"n", VStr (B"41"))] = ([(B"n", VStr (B"42"))], x_ok (int_msg 42)).
+Proof. vm_compute. repeat split; reflexivity. Qed.
+(* ZREVRANGEBYSCORE z 3 (1 LIMIT 0 1 WITHSCORES on {a:1, b:2, c:3}: the hypotheses of C12_zrevrangebyscore hold and the reply is [c, 3] *)
+Example C12_ex_zrevrangebyscore :
+  let c := {| cs_auth := true; cs_db := 0; cs_user := []; cs_pass := None; cs_tls := None |} in
+  let mx := {| rs_tok := {| ft_txt := B"3"; ft_val := FNum (3 # 1) |}; rs_ex := false |} in
+  let mn := {| rs_tok := {| ft_txt := B"1"; ft_val := FNum (1 # 1) |}; rs_ex := true |} in
+  let ws := [ZwLIMIT {| w_txt := B"limit"; w_kw := "LIMIT" |} {| it_txt := B"0"; it_val := 0 |} {| it_txt := B"1"; it_val := 1 |};
+             ZwWITHSCORES {| w_txt := B"WithScores"; w_kw := "WITHSCORES" |}] in
+  let d := [(B"z", VZSet [(B"a", FNum (1 # 1)); (B"b", FNum (2 # 1)); (B"c", FNum (3 # 1))])] in
+  rstok_ok mx = true /\ rstok_ok mn = true /\ forallb zr_word_ok ws = true /\
+  snd (run (x_ZREVRANGEBYSCORE db dhandle) c (map bulk ([B"z"; rstok_txt mx; rstok_txt mn] ++ flat_map print_zr_word ws)) d) =
+  x_ok (RArr [bulk (B"c"); bulk (B"3/1")])   (* the model prints scores as exact rationals *).
 Proof. vm_compute. repeat split; reflexivity. Qed.
